@@ -137,6 +137,9 @@ def pandas_ops(F, right, big):
     # prange kernels only split work on large inputs
     ops["np:measures:big"] = lambda: canon((np.asarray(big["mline"].length), np.asarray(big["poly"].length),
                                             np.asarray(big["poly"].area), np.asarray(big["mpoly"].area)))
+    ops["np:measures:big-fractional"] = lambda: canon((np.asarray(big["poly_f"].area), np.asarray(big["mpoly_f"].area),
+                                                       np.asarray(big["poly_f"].length), np.asarray(big["mline_f"].length),
+                                                       np.asarray(big["mpoly_f"].length)))
     ops["np:multipoint-box:big"] = lambda: canon(np.asarray(big["mpoint"].intersects_bounds(box)))
     ops["np:polygon-box:big"] = lambda: canon((np.asarray(big["poly"].intersects_bounds(box)),
                                                np.asarray(big["mpoly"].intersects_bounds(box)),
@@ -155,7 +158,14 @@ def make_big(rng, n):
     ml = [[r for r in p] if p is not None else None for p in polys]
     mp = [None if p is None else [p] for p in polys]
     mpt = [None if p is None else p[0] for p in polys]
-    return {"poly": PolygonArray(polys, dtype="float64"), "mline": MultiLineArray(ml, dtype="float64"),
+    # the same shapes with coordinates that need all 53 bits (sums then depend on the order of addition)
+    def frac(el):
+        return None if el is None else [[v * 1234.5678901 + 5.0e6 + 0.1 * (k_ % 7) for k_, v in enumerate(r)] for r in el]
+    polys_f = [frac(p) for p in polys]
+    return {"poly_f": PolygonArray(polys_f, dtype="float64"),
+            "mpoly_f": MultiPolygonArray([None if p is None else [p, p[:1]] for p in polys_f], dtype="float64"),
+            "mline_f": MultiLineArray(polys_f, dtype="float64"),
+            "poly": PolygonArray(polys, dtype="float64"), "mline": MultiLineArray(ml, dtype="float64"),
             "mpoly": MultiPolygonArray(mp, dtype="float64"), "mpoint": MultiPointArray(mpt, dtype="float64"),
             "points": PointArray(rng.integers(0, 200, (n, 2)).astype("float64") / 2.0)}
 
